@@ -4,15 +4,19 @@ import (
 	"context"
 	"errors"
 	"fmt"
+	"io"
+	"net"
 	"runtime/debug"
 	"sort"
 	"strings"
 	"sync"
 	"time"
 
+	"tunnox-core/internal/client/mapping"
 	clienttunnel "tunnox-core/internal/client/tunnel"
 	"tunnox-core/internal/cloud/models"
 	"tunnox-core/internal/cloud/stats"
+	"tunnox-core/internal/config"
 	"tunnox-core/internal/core/dispose"
 	"tunnox-core/internal/core/storage/memory"
 	"tunnox-core/internal/packet"
@@ -42,10 +46,12 @@ func init() {
 			"The StreamProcessor is built over one connection or over separate receive/send endpoints (Close() error or Close() signature) whose Close may report an injected error; each endpoint must still be closed exactly once and the blocked reader released. The tunnel's goroutines must be gone while its manager (parent context) is still alive. " +
 			"ResourceManager resources take drawn amounts of simulated time to dispose and DisposeWithTimeout callers draw timeouts around them, so a timeout really fires while the disposal continues in the background (its helper goroutine must end). " +
 			"After the bridge's first Close a reconnecting source and/or a late target connection may be attached (the bridge is still registered then); the bridge's last Close must close every connection it was ever handed and release its remote end. The cloud-control double may be slower than the bridge's own final-report timeout. " +
+			"Close itself must terminate: every closer has to return within a bound of simulated time far above all planned delays (a Close deadlocked with the component's own Start/I/O never runs the cleanup). " +
+			"Seventh component: the client's real BaseMappingHandler (accept loop, handleConnection, real Tunnel + TunnelManager) with 1-4 local connections, a connection limit, failed handshakes, and 0-3 notification tasks per tunnel (peer-closed, fatal error, CloseTunnel, CloseAll) delivered as soon as the tunnel is registered, i.e. between RegisterTunnel and Tunnel.Start, during start-up or later, racing 2-4 Stop/Close callers; afterwards the per-connection slot must have been released exactly once (counter 0), adapter.Close ran once, no tunnel/connection/goroutine is left. " +
 			"Interleavings come from the seeded scheduler at statement granularity inside the anchored files. A run is non-trivial when two Close calls overlapped in time, or a Close overlapped an in-flight user operation / completion path of the component (measured with global event stamps); distinct = distinct schedule hash among those.",
 		Real: []string{"internal/core/dispose (Dispose, ResourceBase, ManagerBase, ResourceManager)", "internal/stream StreamProcessor (+ utils.BufferManager/BufferPool)", "internal/core/storage/memory Storage (all ops, StartCleanup/StopCleanup)",
-			"internal/client/tunnel Tunnel + DefaultTunnelManager", "internal/utils/iocopy Bidirectional + readWriteCloser", "internal/protocol/session/tunnel Bridge (Start, CopyWithControl, Close, periodic/final traffic report)", "internal/protocol/session/connection TCPTunnelConnection", "internal/stream/compression (compressed packets written while closing)"},
-		Stub: []string{"transport: simnet links", "tunnel.ClientInterface (SendTunnelCloseNotify counter)", "CloudControlAPI double holding one PortMapping with read/update yield points", "TunnelManager: real DefaultTunnelManager behind a counting wrapper for UnregisterTunnel"},
+			"internal/client/tunnel Tunnel + DefaultTunnelManager", "internal/client/mapping BaseMappingHandler (Start/acceptLoop/handleConnection/Stop)", "internal/utils/iocopy Bidirectional + readWriteCloser", "internal/protocol/session/tunnel Bridge (Start, CopyWithControl, Close, periodic/final traffic report)", "internal/protocol/session/connection TCPTunnelConnection", "internal/stream/compression (compressed packets written while closing)"},
+		Stub: []string{"transport: simnet links", "tunnel.ClientInterface (SendTunnelCloseNotify counter)", "CloudControlAPI double holding one PortMapping with read/update yield points", "TunnelManager: real DefaultTunnelManager behind a counting wrapper for UnregisterTunnel", "mapping.ClientInterface (DialTunnel hands out a simnet link + real StreamProcessor and starts the notification tasks) and mapping.MappingAdapter (Accept fed by the harness, handshake delay/failure, counted Close)"},
 		Assumptions: []string{"a cleanup handler registered concurrently with Close may run zero or one times; one whose registration returned before the first Close call began must run exactly once",
 			"late operations on storage/dispose/bridge may succeed, return an error or a zero value (only a panic or a hang is a violation); late packet I/O on a closed StreamProcessor must return an error", "a Close call may return early while another Close is still running the cleanup; counters are checked after all closers returned",
 			"timers are observed only through the goroutines they wake (no timer-creation hook)", "SessionManager and hybrid.Storage are not built in this scenario",
@@ -58,7 +64,7 @@ func init() {
 func c16Run(w *simrt.World, tier string) {
 	// process-global sync.Pools whose (instrumented) New functions would make a run's schedule depend on
 	// what earlier runs in the same worker process left behind
-	switch w.C.Intn(6, "component") {
+	switch w.C.Intn(7, "component") {
 	case 0:
 		c16Dispose(w)
 	case 1:
@@ -69,8 +75,10 @@ func c16Run(w *simrt.World, tier string) {
 		c16Tunnel(w)
 	case 4:
 		c16Bridge(w)
-	default:
+	case 5:
 		c16ResMgr(w)
+	default:
+		c16Mapping(w)
 	}
 }
 
@@ -211,6 +219,30 @@ func c16Join(ts []*simrt.Task) {
 	}
 }
 
+// c16JoinBounded is the termination clause for Close itself: every closer (and side actor) must have returned
+// within bound of simulated time (bound is far above every planned delay and timeout of the component). A Close
+// that never returns (lock-order deadlock with the component's own start-up or I/O) never runs the cleanup.
+func c16JoinBounded(w *simrt.World, comp string, ts []*simrt.Task, bound time.Duration) bool {
+	ok := true
+	for _, t := range ts {
+		if !c16Bounded(w, t, bound) {
+			ok = false
+		}
+	}
+	if !ok {
+		var stuck []string
+		for _, ti := range w.LiveTasks() {
+			if ti.Born == "root" {
+				continue
+			}
+			stuck = append(stuck, fmt.Sprintf("%s (born %s) at %s", ti.ID, ti.Born, ti.Site))
+		}
+		sort.Strings(stuck)
+		w.Violationf("C16:"+comp+":Close-did-not-return", "a Close call (or an operation racing it) has not returned %v of simulated time after it was due; tasks still alive:\n%s", bound, strings.Join(stuck, "\n"))
+	}
+	return ok
+}
+
 // c16Bounded waits for t for at most d of simulated time.
 func c16Bounded(w *simrt.World, t *simrt.Task, d time.Duration) bool {
 	if t.Done() {
@@ -349,7 +381,9 @@ func c16Dispose(w *simrt.World) {
 			adderRet[i] = w.Stamp()
 		}))
 	}
-	c16Join(tasks)
+	if !c16JoinBounded(w, "dispose", tasks, time.Minute) {
+		return
+	}
 	if sp.overlap("closer", "closer") {
 		w.Nontrivial()
 		w.Probe("dispose.closers-overlapped")
@@ -516,7 +550,9 @@ func c16ResMgr(w *simrt.World) {
 			}
 		}))
 	}
-	c16Join(tasks)
+	if !c16JoinBounded(w, "resmgr", tasks, 30*time.Minute) {
+		return
+	}
 	w.Sleep(10 * time.Minute) // the background DisposeAll of a timed-out DisposeWithTimeout finishes its slow resources
 	if timedOut {
 		w.Nontrivial()
@@ -739,7 +775,9 @@ func c16Stream(w *simrt.World) {
 			}
 		}))
 	}
-	c16Join(closers)
+	if !c16JoinBounded(w, "stream", closers, time.Minute) {
+		return
+	}
 	if handlerRuns != 1 {
 		cl := "handler-ran-more-than-once"
 		if handlerRuns == 0 {
@@ -979,8 +1017,9 @@ func c16Memory(w *simrt.World) {
 			}
 		}))
 	}
-	c16Join(closers)
-	c16Join(tasks)
+	if !c16JoinBounded(w, "memory", append(closers, tasks...), 10*time.Minute) {
+		return
+	}
 	if handlerRuns != 1 && !closePanicked {
 		cl := "handler-ran-more-than-once"
 		if handlerRuns == 0 {
@@ -1204,8 +1243,9 @@ func c16Tunnel(w *simrt.World) {
 			})
 		}))
 	}
-	c16Join(closers)
-	c16Join(side)
+	if !c16JoinBounded(w, "tunnel", append(closers, side...), 15*time.Minute) {
+		return
+	}
 	if spans.overlap("closer", "closer") {
 		w.Nontrivial()
 		w.Probe("tunnel.closers-overlapped")
@@ -1493,7 +1533,9 @@ func c16Bridge(w *simrt.World) {
 			}
 		}))
 	}
-	c16Join(closers)
+	if !c16JoinBounded(w, "bridge", closers, 10*time.Minute) {
+		return
+	}
 	if spans.overlap("closer", "closer") {
 		w.Nontrivial()
 		w.Probe("bridge.closers-overlapped")
@@ -1515,7 +1557,9 @@ func c16Bridge(w *simrt.World) {
 	}
 	_ = startReturned
 	_ = startErr
-	c16Join(side)
+	if !c16JoinBounded(w, "bridge", side, 10*time.Minute) {
+		return
+	}
 	if targetMode == 3 {
 		c16Guard(w, "C16:bridge:panic-after-close:SetTargetConnection", func() { br.SetTargetConnection(tgtTC) })
 	}
@@ -1638,4 +1682,361 @@ func c16Bridge(w *simrt.World) {
 	} else if sent+recv > 0 && !failed {
 		w.Probe("bridge.traffic-report-exact")
 	}
+}
+
+// ---- component 6: client mapping handler (BaseMappingHandler) -------------
+
+// c16mapClient is the rest of the client as the mapping handler sees it: DialTunnel hands out one end of a simnet
+// link plus a real StreamProcessor, and starts the notification tasks that end this tunnel through the handler's
+// real TunnelManager as soon as the tunnel is registered there (so a close can land between RegisterTunnel and
+// Tunnel.Start, during start-up, or later).
+type c16mapClient struct {
+	w        *simrt.World
+	ctx      context.Context
+	tm       func() clienttunnel.TunnelManager
+	mu       sync.Mutex
+	dials    int
+	fars     []*simnet.Conn
+	tuns     []*simnet.Conn
+	plans    [][]int // per dial: the notifications to deliver (1 peer-closed, 2 fatal error, 3 CloseTunnel, 4 CloseAll)
+	pending  int
+	tracked  int
+	notifies int
+}
+
+func (c *c16mapClient) DialTunnel(tunnelID, mappingID, secretKey string) (net.Conn, stream.PackageStreamer, error) {
+	c.w.Yield("c16.map.dial")
+	c.mu.Lock()
+	k := c.dials
+	c.dials++
+	ta, tb := simnet.NewLink(c.w, simnet.LinkConfig{NameA: fmt.Sprintf("mtun%d", k), NameB: fmt.Sprintf("mfar%d", k)})
+	c.fars = append(c.fars, tb)
+	c.tuns = append(c.tuns, ta)
+	var plan []int
+	if k < len(c.plans) {
+		plan = c.plans[k]
+	}
+	c.pending += len(plan)
+	c.mu.Unlock()
+	c.w.Spawn(fmt.Sprintf("mfar%d-drain", k), func() {
+		buf := make([]byte, 1024)
+		for {
+			if _, err := tb.Read(buf); err != nil {
+				return
+			}
+		}
+	})
+	for j, kind := range plan {
+		kind := kind
+		c.w.Spawn(fmt.Sprintf("notifier%d.%d", k, j), func() {
+			defer func() {
+				c.mu.Lock()
+				c.pending--
+				c.mu.Unlock()
+			}()
+			tm := c.tm()
+			found := false
+			for i := 0; i < 600 && !found; i++ {
+				if c.ctx.Err() != nil || c.w.Free() {
+					return
+				}
+				if tm.GetTunnel(tunnelID) != nil {
+					found = true
+				} else {
+					c.w.Yield("c16.map.notify.wait")
+				}
+			}
+			if !found {
+				c.w.Probe("mapping.notification-without-tunnel")
+				return
+			}
+			for lag := c.w.Draw(10, "map.notify.lag"); lag > 0; lag-- {
+				c.w.Yield("c16.map.notify.lag")
+			}
+			c.w.Probe("mapping.notification-delivered")
+			c16Guard(c.w, "C16:mapping:panic:notification-racing-start", func() {
+				switch kind {
+				case 1:
+					tm.OnTunnelClosed(tunnelID, mappingID, "peer closed", 0, 0, 0)
+				case 2:
+					tm.OnTunnelError(tunnelID, mappingID, "TARGET_UNREACHABLE", "dial to the target failed", false)
+				case 3:
+					_ = tm.CloseTunnel(tunnelID, clienttunnel.CloseReasonPeerClosed)
+				default:
+					tm.CloseAll()
+				}
+			})
+		})
+	}
+	return ta, stream.NewStreamProcessor(ta, ta, c.ctx), nil
+}
+func (c *c16mapClient) DialTunnelPooled(string, string) (mapping.PooledTunnelConnInterface, error) {
+	return nil, nil
+}
+func (c *c16mapClient) ReturnTunnelToPool(mapping.PooledTunnelConnInterface)  {}
+func (c *c16mapClient) CloseTunnelFromPool(mapping.PooledTunnelConnInterface) {}
+func (c *c16mapClient) IsTunnelPoolEnabled() bool                             { return false }
+func (c *c16mapClient) GetContext() context.Context                           { return c.ctx }
+func (c *c16mapClient) CheckMappingQuota(string) error                        { return nil }
+func (c *c16mapClient) TrackTraffic(string, int64, int64) error {
+	c.mu.Lock()
+	c.tracked++
+	c.mu.Unlock()
+	return nil
+}
+func (c *c16mapClient) GetUserQuota() (*models.UserQuota, error) { return &models.UserQuota{}, nil }
+func (c *c16mapClient) GetServerProtocol() string                { return "tcp" }
+func (c *c16mapClient) SendTunnelCloseNotify(int64, string, string, string) error {
+	c.w.Yield("c16.map.close-notify")
+	c.mu.Lock()
+	c.notifies++
+	c.mu.Unlock()
+	return nil
+}
+func (c *c16mapClient) pendingNotifiers() int {
+	c.mu.Lock()
+	defer c.mu.Unlock()
+	return c.pending
+}
+
+// c16mapLocal is an accepted local connection (counts Close).
+type c16mapLocal struct {
+	*simnet.Conn
+	prep     time.Duration
+	failed   bool
+	accepted bool
+}
+
+// c16mapAdapter is the protocol adapter: Accept is fed by the harness; Close (a cleanup action of the handler) is counted.
+type c16mapAdapter struct {
+	w      *simrt.World
+	mu     sync.Mutex
+	queue  []*c16mapLocal
+	notify chan struct{}
+	closed bool
+	closes int
+}
+
+func (a *c16mapAdapter) StartListener(config.MappingConfig) error { return nil }
+func (a *c16mapAdapter) push(l *c16mapLocal) {
+	a.mu.Lock()
+	a.queue = append(a.queue, l)
+	close(a.notify)
+	a.notify = make(chan struct{})
+	a.mu.Unlock()
+}
+func (a *c16mapAdapter) Accept() (io.ReadWriteCloser, error) {
+	for {
+		a.w.Yield("c16.map.accept")
+		a.mu.Lock()
+		if a.closed {
+			a.mu.Unlock()
+			return nil, net.ErrClosed
+		}
+		if len(a.queue) > 0 {
+			l := a.queue[0]
+			a.queue = a.queue[1:]
+			l.accepted = true
+			a.mu.Unlock()
+			return l, nil
+		}
+		ch := a.notify
+		a.mu.Unlock()
+		<-ch
+	}
+}
+func (a *c16mapAdapter) PrepareConnection(c io.ReadWriteCloser) error {
+	l := c.(*c16mapLocal)
+	a.w.Sleep(l.prep) // a handshake; also keeps the time-derived tunnel ids of concurrent connections apart
+	if l.failed {
+		a.w.Fault("mapping.prepare-error")
+		return errors.New("injected: local handshake failed")
+	}
+	return nil
+}
+func (a *c16mapAdapter) GetProtocol() string { return "tcp" }
+func (a *c16mapAdapter) Close() error {
+	a.w.Yield("c16.map.adapter.close")
+	a.mu.Lock()
+	a.closes++
+	a.closed = true
+	close(a.notify)
+	a.notify = make(chan struct{})
+	a.mu.Unlock()
+	return nil
+}
+
+func c16Mapping(w *simrt.World) {
+	c := w.C
+	nConns := 1 + c.Intn(4, "map.nconns")
+	limit := []int{0, 1, 2, 8}[c.Intn(4, "map.limit")]
+	nClosers := 2 + c.Intn(3, "map.nclosers")
+	plans := c16Plans(c, nClosers, "map.closer", []time.Duration{0, time.Millisecond, 5 * time.Millisecond, 31 * time.Second}, 2)
+	type connPlan struct {
+		end      int // 0 stays until the handler stops, 1 user closes, 2 far end closes, 3 user resets
+		chunks   int
+		failPrep bool
+		notes    []int
+	}
+	cps := make([]connPlan, nConns)
+	var notePlans [][]int
+	for i := range cps {
+		cps[i].end = c.Intn(4, "map.conn.end")
+		cps[i].chunks = c.Intn(3, "map.conn.chunks")
+		cps[i].failPrep = c.Intn(10, "map.conn.prepare-fails") == 9
+		for n := c.Intn(4, "map.conn.notifications"); n > 0; n-- {
+			cps[i].notes = append(cps[i].notes, 1+c.Intn(4, "map.conn.notification"))
+		}
+	}
+	for _, cp := range cps {
+		if !cp.failPrep { // only connections that pass the handshake dial a tunnel
+			notePlans = append(notePlans, cp.notes)
+		}
+	}
+	cancelFirst := c.Chance(1, 6, "map.cancel-client-ctx")
+	w.Probe("component.client-mapping-handler")
+	w.Sample(fmt.Sprintf("client BaseMappingHandler limit=%d conns=%+v closers=%d cancelClientCtx=%v", limit, cps, nClosers, cancelFirst))
+	w.State(fmt.Sprintf("mapping/l%d/n%d/c%d", limit, nConns, nClosers))
+
+	ctx, cancel := context.WithCancel(w.Ctx)
+	defer cancel()
+	cl := &c16mapClient{w: w, ctx: ctx, plans: notePlans}
+	ad := &c16mapAdapter{w: w, notify: make(chan struct{})}
+	h := mapping.NewBaseMappingHandler(cl, config.MappingConfig{MappingID: "pmap_c16", SecretKey: "k", Protocol: "tcp", LocalPort: 18080,
+		TargetHost: "127.0.0.1", TargetPort: 80, TargetClientID: 42, MaxConnections: limit}, ad)
+	cl.tm = h.GetTunnelManager
+	handlerRuns := 0
+	h.AddCleanHandler(func() error { handlerRuns++; w.Yield("c16.handler"); return nil })
+	if err := h.Start(); err != nil {
+		w.Violationf("C16:mapping:start-failed", "%v", err)
+		return
+	}
+	spans := &c16spans{}
+	var users []*simnet.Conn
+	var locals []*c16mapLocal
+	var side []*simrt.Task
+	for i, cp := range cps {
+		i, cp := i, cp
+		ua, ub := simnet.NewLink(w, simnet.LinkConfig{NameA: fmt.Sprintf("user%d", i), NameB: fmt.Sprintf("local%d", i)})
+		lc := &c16mapLocal{Conn: ub, prep: time.Duration(i+1) * 7 * time.Microsecond, failed: cp.failPrep}
+		users = append(users, ua)
+		locals = append(locals, lc)
+		ad.push(lc)
+		side = append(side, w.Spawn(fmt.Sprintf("user%d", i), func() {
+			for k := 0; k < cp.chunks; k++ {
+				if _, err := ua.Write([]byte(fmt.Sprintf("user%d-chunk-%d;", i, k))); err != nil {
+					return
+				}
+			}
+			w.Sleep(200 * time.Microsecond)
+			w.Yield("c16.completion")
+			st := w.Stamp()
+			switch cp.end {
+			case 1:
+				ua.Close()
+				spans.add("completion.user-close", st, st+1)
+			case 3:
+				ua.Reset()
+				w.Fault("net.reset")
+				spans.add("completion.reset", st, st+1)
+			case 2:
+				cl.mu.Lock()
+				var far *simnet.Conn
+				if i < len(cl.fars) {
+					far = cl.fars[i]
+				}
+				cl.mu.Unlock()
+				if far != nil {
+					far.Close()
+					spans.add("completion.far-close", st, st+1)
+				}
+			}
+		}))
+		side = append(side, w.Spawn(fmt.Sprintf("user%d-drain", i), func() {
+			buf := make([]byte, 1024)
+			for {
+				if _, err := ua.Read(buf); err != nil {
+					return
+				}
+			}
+		}))
+	}
+	if cancelFirst {
+		cancel()
+	}
+	var closers []*simrt.Task
+	for i := 0; i < nClosers; i++ {
+		p := plans[i]
+		closers = append(closers, c16Actor(w, spans, fmt.Sprintf("closer%d", i), p, func() {
+			c16Guard(w, "C16:mapping:panic:Close", func() {
+				if p.variant == 1 {
+					_ = h.Close()
+				} else {
+					h.Stop()
+				}
+			})
+			if !h.IsClosed() {
+				w.Violationf("C16:mapping:not-closed-after-close", "IsClosed()==false after Stop returned")
+			}
+		}))
+	}
+	if !c16JoinBounded(w, "mapping", closers, 10*time.Minute) {
+		return
+	}
+	if spans.overlap("closer", "closer") || spans.overlap("closer", "completion") {
+		w.Nontrivial()
+		w.Probe("mapping.close-overlap")
+	}
+	// the handler has been stopped: release what the harness still holds, then everything must come to rest
+	for _, u := range users {
+		u.Close()
+	}
+	cl.mu.Lock()
+	fars := append([]*simnet.Conn(nil), cl.fars...)
+	cl.mu.Unlock()
+	for _, f := range fars {
+		f.Close()
+	}
+	for i := 0; i < 200 && cl.pendingNotifiers() > 0; i++ {
+		w.Sleep(100 * time.Microsecond)
+	}
+	w.Sleep(2 * time.Second)
+	if cl.pendingNotifiers() == 0 && cl.dials > 0 {
+		w.Nontrivial()
+	}
+	if handlerRuns != 1 {
+		w.Violationf("C16:mapping:handler-ran-wrong-number-of-times", "clean handler ran %d times after %d closers returned", handlerRuns, nClosers)
+	}
+	if ad.closes != 1 {
+		w.Violationf("C16:mapping:adapter-close-ran-wrong-number-of-times", "adapter.Close (a cleanup action of the handler) ran %d times after %d closers returned", ad.closes, nClosers)
+	}
+	// each connection took one slot of the mapping's connection limit; its release is a cleanup action of that
+	// connection's close: exactly once, whichever path closed it (failed handshake, tunnel closed before/while/after start, handler stop)
+	switch n := h.ActiveConnCountForVerif(); {
+	case n < 0:
+		w.Violationf("C16:mapping:connection-slot-released-more-than-once", "every connection is closed and the handler stopped, but its active-connection counter is %d: some connection's slot was given back more than once (dials=%d, tunnels still registered=%d)", n, cl.dials, h.GetTunnelManager().CountTunnels())
+	case n > 0:
+		w.Violationf("C16:mapping:connection-slot-never-released", "every connection is closed and the handler stopped, but its active-connection counter is still %d (dials=%d, tunnels still registered=%d)", n, cl.dials, h.GetTunnelManager().CountTunnels())
+	}
+	if n := h.GetTunnelManager().CountTunnels(); n != 0 {
+		w.Violationf("C16:mapping:tunnels-left-registered", "%d tunnels still registered after the handler was stopped", n)
+	}
+	for i, l := range locals {
+		if l.accepted && l.Closes() == 0 {
+			w.Violationf("C16:mapping:local-connection-not-closed", "local connection %d was handed to the handler but never closed although the handler was stopped", i)
+		}
+	}
+	cl.mu.Lock()
+	tuns := append([]*simnet.Conn(nil), cl.tuns...)
+	cl.mu.Unlock()
+	for i, t := range tuns {
+		if !t.Closed() {
+			w.Violationf("C16:mapping:tunnel-connection-not-closed", "the tunnel connection of dial %d was handed to the handler but is still open although the handler was stopped", i)
+		}
+	}
+	cancel()
+	for _, t := range side {
+		t.Wait()
+	}
+	c16LeakCheck(w, "mapping", 2*time.Second)
 }
